@@ -8,7 +8,7 @@
    from the headers.  `hall s` = all items stored in all generations; `spec_step` = the abstract finite map. *)
 From Coq Require Import ZArith List Permutation.
 From C01 Require Import HashModel HashSpec HashProofs HashInst HashInstProofs BucketFind.
-From C01 Require Gen_One.
+From C01 Require Gen_One Gen_P4 Gen_P4A P4_Slot P4_Bucket LimP4Ops Glue.
 From C01 Require OpenN1Ops Gen_OpenN1_ops Open2N2Ops Gen_Open2N2_ops.
 From C01 Require IterMachine KindFacts Gen_UnlimP Gen_LimP1 Gen_LimP1t Gen_LimP1f Gen_Lim4 Gen_LimP Open8Match.
 From C01 Require Gen_LimP4 Gen_Open2N2 Gen_Open2N2w Gen_OpenN1.
@@ -493,3 +493,63 @@ Theorem C01_one_ops_facts :
      exists st', Gen_One.Remove st a a = GenPrelude.Ok (tt, st') /\ Gen_One.IsFull st' = false /\ Gen_One.WasFull st' = true).
 Proof. exact KindFacts.one_ops_facts. Qed.
 Print Assumptions C01_one_ops_facts.
+
+(* ---------- growth round 3 ---------- *)
+(* BucketLimP4 (regenerated AddCrt / Remove with the pointer state as two scalars and the pool memories opaque; class invariants as
+   preconditions): AddCrt appends the new item's short hash (and hash-probe byte) at position count, with the memory-pool-index bookkeeping
+   of pvAdd0 / pvAdd<1..3> / in-place; Remove(idx) moves the LAST item's pair into the hole; WasFull follows the hand model's rule
+   WasFull' = WasFull || (count' = maxCount) and is sticky under Remove (also when the bucket becomes empty). *)
+Theorem C01_limp4_addcrt_repr :
+  forall H s ptr stt c sh bv x L probe m0a m0b m1a m1b m2a m2b m3a m3b m4a m4b,
+    4 <= H <= 8 -> 0 <= x < 2 ^ 64 -> 0 <= L <= 63 -> 0 <= probe < 2 ^ 64 -> 0 <= stt < 4 ->
+    P4_Bucket.p4_inv H s c sh bv -> c < 4 -> c <= stt + 1 -> (ptr = 0 <-> c = 0) -> (c = 0 -> stt + 1 = 2 \/ stt + 1 = 4) ->
+    exists r s' ptr' stt',
+      Gen_P4A.AddCrt H 2 s ptr stt x L probe m0a m0b m1a m1b m2a m2b m3a m3b m4a m4b = GenPrelude.Ok (r, s', ptr', stt') /\
+      P4_Bucket.p4_inv H s' (c + 1) (GenPrelude.upd sh c (Gen_P4.pvCalcShortHash x)) (GenPrelude.upd bv c (P4_Slot.p4_byte x L probe)) /\
+      0 <= stt' < 4 /\ c + 1 <= stt' + 1 /\
+      Gen_P4A.WasFull s' ptr' stt' = orb (Gen_P4A.WasFull s ptr stt) (c + 1 =? 4).
+Proof. exact LimP4Ops.limp4_addcrt_repr. Qed.
+Print Assumptions C01_limp4_addcrt_repr.
+
+Theorem C01_limp4_remove_repr :
+  forall H s ptr stt c sh bv idx iter, 4 <= H <= 8 -> 0 <= stt < 4 ->
+    P4_Bucket.p4_inv H s c sh bv -> 2 <= c -> 0 <= idx < c -> ptr <> 0 -> (forall i, 0 <= i < c -> 128 <= bv i < 256) ->
+    exists r s' stt',
+      Gen_P4A.Remove H 2 s ptr stt iter idx = GenPrelude.Ok (r, s', ptr, stt') /\
+      P4_Bucket.p4_inv H s' (c - 1) (GenPrelude.upd sh idx (sh (c - 1))) (GenPrelude.upd bv idx (bv (c - 1))) /\
+      Gen_P4A.WasFull s' ptr stt' = Gen_P4A.WasFull s ptr stt.
+Proof. exact LimP4Ops.limp4_remove_repr. Qed.
+Print Assumptions C01_limp4_remove_repr.
+
+Theorem C01_limp4_remove_last_repr :
+  forall H s ptr stt sh bv iter, 4 <= H <= 8 -> 0 <= stt < 4 ->
+    P4_Bucket.p4_inv H s 1 sh bv -> ptr <> 0 -> iter = ptr ->
+    exists r s' stt',
+      Gen_P4A.Remove H 2 s ptr stt iter 0 = GenPrelude.Ok (r, s', 0, stt') /\ P4_Bucket.p4_inv H s' 0 sh bv /\
+      Gen_P4A.WasFull s' 0 stt' = Gen_P4A.WasFull s ptr stt /\ (stt' + 1 = 2 \/ stt' + 1 = 4).
+Proof. exact LimP4Ops.limp4_remove_last_repr. Qed.
+Print Assumptions C01_limp4_remove_last_repr.
+
+(* glue: what the HashSet-level hand model evaluates on its list buckets is what the regenerated leaves evaluate on the real bytes:
+   pvAddNogrow's loop condition (IsFull) for OpenN1 / Open8 and Open2N2, and pvFind's in-bucket search (short-hash filter loop over the
+   byte slots read in Bounds order) for OpenN1 / Open8 *)
+Theorem C01_openn1_isfull_glue :
+  forall (B : Type) (h : Z -> Z) maxCount reverse, 1 <= maxCount <= 7 -> forall (b : bucket B) (d : Z -> Z),
+    OpenN1Ops.repr maxCount reverse d (map (Glue.tagN1 h) (items b)) ->
+    Gen_OpenN1_ops.IsFull reverse maxCount d = isFull B maxCount false b.
+Proof. exact Glue.n1_isfull_glue. Qed.
+Print Assumptions C01_openn1_isfull_glue.
+
+Theorem C01_openn1_find_glue :
+  forall (B : Type) (h : Z -> Z) maxCount reverse, 1 <= maxCount <= 7 -> (forall k, 0 <= h k < 2 ^ 64) -> forall (b : bucket B) (d : Z -> Z) k,
+    OpenN1Ops.repr maxCount reverse d (map (Glue.tagN1 h) (items b)) ->
+    find_sh (Glue.slots_of maxCount reverse d) (items b) (Gen_OpenN1_ops.ptCalcShortHash (h k)) k 0 = Some (bfind k (items b) 0).
+Proof. exact Glue.n1_find_glue. Qed.
+Print Assumptions C01_openn1_find_glue.
+
+Theorem C01_open2n2_isfull_glue :
+  forall (B : Type) (h : Z -> Z) maxCount, 1 <= maxCount <= 3 -> forall (b : bucket B) st sh hp probes,
+    Open2N2Ops.repr2 maxCount st sh hp (map (Glue.tagO2 h) (items b)) probes ->
+    Gen_Open2N2_ops.IsFull st sh hp = isFull B maxCount false b.
+Proof. exact Glue.o2_isfull_glue. Qed.
+Print Assumptions C01_open2n2_isfull_glue.
